@@ -41,3 +41,167 @@ Example C19_example :
    ([1; 2]%Z, [Some 5; kTRUE; Some 7; kTRUE]%Z);
    ([2]%Z, [kTRUE; Some (-5); Some 7; kTRUE]%Z)].
 Proof. vm_compute. reflexivity. Qed.
+
+(* ====================================================================================
+   Deepening: enumerate_branches / get_node_multiplicity / _builtin_findall_base / _builtin_all
+   (models in ModelBranches.v).  g is the private formula `findall_target` of a findall call,
+   s any supported valuation of g under the atom assignment a (on an acyclic graph: THE value
+   of every node), lvl a rank function witnessing acyclicity. *)
+From PL.C09 Require Import BoolGraph.
+From PL.C19 Require Import ModelBranches ProofsBranches.
+From Coq Require Import Permutation Sorted.
+
+(* the disjunction of the enumerated branches is equivalent to the node, for every assignment *)
+Theorem C19_branches_equiv : forall (g : graph) (lvl : nat -> nat) (a : N -> bool) (s : nat -> bool)
+    (fuel : nat) (c : Z) (bs : list (Z * branch)),
+  acyclic_by lvl g -> supported g a s -> eb g fuel [] c = Some bs ->
+  existsb (fun mb => bval s (snd mb)) bs = lit_val s c.
+Proof. intros g lvl a s fuel c bs Hac Hs. exact (eb_sound g lvl Hac a s Hs fuel [] c bs (fun x (H : In x []) => match H with end)). Qed.
+Print Assumptions C19_branches_equiv.
+
+(* on an acyclic graph no enumerated branch is empty: findall's `proof_node = FALSE` for an empty
+   branch only fires for a FALSE result key *)
+Theorem C19_branches_nonempty : forall (g : graph) (lvl : nat -> nat) (fuel : nat) (c : Z) (bs : list (Z * branch)),
+  acyclic_by lvl g -> eb g fuel [] c = Some bs -> forall mb, In mb bs -> snd mb <> [].
+Proof. intros g lvl fuel c bs Hac. exact (eb_nonempty g lvl Hac fuel [] c bs (fun x (H : In x []) => match H with end)). Qed.
+Print Assumptions C19_branches_nonempty.
+
+(* the model does not run out of fuel / hit an exception on well-formed acyclic graphs *)
+Theorem C19_branches_total : forall (g : graph) (lvl : nat -> nat) (fuel : nat) (c : Z),
+  acyclic_by lvl g -> closed_graph g -> no_empty_and g ->
+  key_of c <= length g -> lvl (key_of c) < fuel ->
+  exists bs, eb g fuel [] c = Some bs.
+Proof. intros g lvl fuel c Hac Hc Hn. exact (eb_total g lvl Hac Hc Hn fuel [] c (fun x (H : In x []) => match H with end)). Qed.
+Print Assumptions C19_branches_total.
+
+Theorem C19_branches_total_topo : forall (g : graph) (c : Z),
+  topo g -> closed_graph g -> no_empty_and g -> key_of c <= length g ->
+  exists bs, eb g (default_fuel g) [] c = Some bs.
+Proof. exact eb_total_topo. Qed.
+Print Assumptions C19_branches_total_topo.
+
+(* get_node_multiplicity = number of enumerated branches = number of list elements one answer
+   contributes to findall's solution list *)
+Theorem C19_multiplicity_is_branch_count : forall (g : graph) (lvl : nat -> nat) (fuel fuel2 : nat) (c : Z)
+    (bs : list (Z * branch)) (m : nat),
+  acyclic_by lvl g -> eb g fuel [] c = Some bs -> mult g fuel2 c = Some m -> length bs = m.
+Proof. intros g lvl fuel fuel2 c bs m Hac. exact (eb_length_mult g lvl Hac fuel [] c bs fuel2 m (fun x (H : In x []) => match H with end)). Qed.
+Print Assumptions C19_multiplicity_is_branch_count.
+
+(* THE ORDER THE MODEL FIXES: the proofs are stably sorted by mx (= the largest node id on the
+   branch, the code's "order detection mechanism", marked fragile in the source).  Nothing
+   here says that this is Prolog's solution order (known findings
+   findall-result-order-not-clause-order, findall-duplicate-proofs-of-same-answer-merged). *)
+Theorem C19_order_is_stable_sort_by_mx : forall (T : Type) (ps : list (proof T)),
+  Permutation (sort_mx ps) ps /\ Sorted mx_le (sort_mx ps) /\
+  (forall m, filter (fun p => (p_mx p =? m)%Z) (sort_mx ps) = filter (fun p => (p_mx p =? m)%Z) ps).
+Proof. intros T ps. exact (conj (sort_mx_perm ps) (conj (sort_mx_sorted ps) (sort_mx_stable ps))). Qed.
+Print Assumptions C19_order_is_stable_sort_by_mx.
+
+(* findall/3.  Hypotheses on the target formula (valuation tv of its nodes): the key pn b that
+   copy_node + add_and build for a proof b has the value of the conjunction of b, the key cn ks
+   that add_and builds for a constraint list has the value of the conjunction (builder property,
+   proved for the builder model in C09/BuilderProofs.v, C11; checked per call by the harness).
+   Then: exactly one output list has a true node; that list is the list of the terms of the proofs
+   that are true, in the order fixed above; a term occurs in it iff it is a solution whose node
+   is true (it occurs once per true proof). *)
+Theorem C19_findall_lists_partition : forall (T : Type) (tv : Z -> bool) (cn : list key -> key)
+    (g : graph) (lvl : nat -> nat) (a : N -> bool) (s : nat -> bool) (pn : branch -> key)
+    (fuel : nat) (results : list (T * key)) (ps : list (proof T)),
+  acyclic_by lvl g -> supported g a s ->
+  all_proofs g fuel results = Some ps ->
+  (forall p, In p ps -> p_branch p <> [] -> val tv (pn (p_branch p)) = bval s (p_branch p)) ->
+  cn_ok tv cn (findall_lst pn (sort_mx ps)) ->
+  let sorted := sort_mx ps in
+  let out := findall_out cn (findall_lst pn sorted) in
+  findall_model g fuel pn cn results = Some out /\
+  length (filter (fun e => val tv (snd e)) out) = 1 /\
+  (forall l node, In (l, node) out -> val tv node = true ->
+     l = map p_term (filter (fun p => pval s (p_branch p)) sorted)) /\
+  (forall t, In t (map p_term (filter (fun p => pval s (p_branch p)) sorted)) <->
+             exists k, In (t, k) results /\ key_val s k = true).
+Proof.
+  intros T tv cn g lvl a s pn fuel results ps Hac Hs Hps Hpn Hcn sorted out.
+  split; [unfold findall_model; rewrite Hps; reflexivity|].
+  exact (findall_lists_partition tv cn g lvl a s pn Hac Hs fuel results ps Hps Hpn Hcn).
+Qed.
+Print Assumptions C19_findall_lists_partition.
+
+(* all/3 (allow_none = false) and all_or_none/3 (allow_none = true): the results are used as they
+   come (no expansion); the empty list is skipped unless allow_none, so that under an assignment
+   with no true solution NO output of all/3 holds *)
+Theorem C19_all_lists_partition : forall (T : Type) (tv : Z -> bool) (cn : list key -> key)
+    (allow_none : bool) (lst : list (T * key)),
+  cn_ok tv cn lst ->
+  length (filter (fun e => val tv (snd e)) (all_out allow_none cn lst))
+    = (if allow_none || existsb (fun x => val tv (snd x)) lst then 1 else 0) /\
+  (forall l node, In (l, node) (all_out allow_none cn lst) -> val tv node = true ->
+     l = map fst (filter (fun x => val tv (snd x)) lst)).
+Proof. intros T tv cn allow_none lst. exact (all_out_spec tv cn allow_none lst). Qed.
+Print Assumptions C19_all_lists_partition.
+
+(* ------------------------------------------------------------------ non-vacuity *)
+(* node 4 = (f0 /\ f1) \/ ~f0 : two proofs; the negative literal gets a NEGATIVE mx and sorts first *)
+Definition ex_g : graph := [NAtom 0; NAtom 1; NAnd [1; 2]; NOr [3; -1]]%Z.
+Example C19_branches_example :
+  topob ex_g = true /\
+  eb ex_g (default_fuel ex_g) [] 4 = Some [(3, [1; 2]); (-1, [-1])]%Z /\
+  mult ex_g (default_fuel ex_g) 4 = Some 2.
+Proof. vm_compute. repeat split. Qed.
+
+(* LogicFormula keys need not be topologically ordered: acyclic_by covers that *)
+Definition ex_g2 : graph := [NOr [2; 3]; NAtom 0; NAnd [2; 4]; NAtom 1]%Z.
+Example C19_branches_example_nontopo :
+  topob ex_g2 = false /\ acyclic_by (fun k => nth k [0; 3; 1; 2; 1] 0) ex_g2 /\
+  eb ex_g2 (default_fuel ex_g2) [] 1 = Some [(2, [2]); (4, [2; 4])]%Z.
+Proof. split; [reflexivity|]. split; [apply acyclic_byb_sound; reflexivity|reflexivity]. Qed.
+
+(* a complete findall instance: results p(10) with node 4 and p(20) with node 2 (= f1);
+   target formula: atoms 1 (f0), 2 (f1), node 3 = 1 /\ 2, nodes 4.. = the constraint conjunctions *)
+Definition ex_results : list (Z * key) := [(10, Some 4); (20, Some 2)]%Z.
+Definition ex_pn (b : branch) : key :=
+  if list_eq_dec Z.eq_dec b [-1]%Z then Some (-1)%Z
+  else if list_eq_dec Z.eq_dec b [2]%Z then Some 2%Z
+  else if list_eq_dec Z.eq_dec b [1; 2]%Z then Some 3%Z else None.
+Definition ex_lst : list (Z * key) := [(10, Some (-1)); (20, Some 2); (10, Some 3)]%Z.
+Definition ex_keq (x y : key) : bool :=
+  match x, y with None, None => true | Some u, Some v => Z.eqb u v | _, _ => false end.
+Fixpoint ex_leq (x y : list key) : bool :=
+  match x, y with [] , [] => true | u :: x', v :: y' => ex_keq u v && ex_leq x' y' | _, _ => false end.
+Fixpoint ex_index (ks : list key) (l : list (list key)) (i : Z) : key :=
+  match l with [] => None | x :: r => if ex_leq ks x then Some i else ex_index ks r (i + 1)%Z end.
+Definition ex_cn (ks : list key) : key := ex_index ks (map snd (select_sublist ex_lst)) 4%Z.
+Definition ex_tv0 (a0 a1 : bool) (z : Z) : bool :=
+  if (z =? 1)%Z then a0 else if (z =? 2)%Z then a1 else a0 && a1.
+Definition ex_tv (a0 a1 : bool) (z : Z) : bool :=
+  if (z <=? 3)%Z then ex_tv0 a0 a1 z
+  else holds (ex_tv0 a0 a1) (nth (Z.to_nat (z - 4)) (map snd (select_sublist ex_lst)) []).
+Definition ex_a (a0 a1 : bool) (id : N) : bool := if (id =? 0)%N then a0 else a1.
+Definition ex_s (a0 a1 : bool) : nat -> bool := vget (dag_val (ex_a a0 a1) ex_g).
+
+Example C19_findall_example_hypotheses : forall a0 a1 : bool,
+  acyclic_by (fun k => k) ex_g /\ supported ex_g (ex_a a0 a1) (ex_s a0 a1) /\
+  all_proofs ex_g (default_fuel ex_g) ex_results = Some [(3, 10, [1; 2]); (-1, 10, [-1]); (2, 20, [2])]%Z /\
+  findall_lst ex_pn (sort_mx [(3, 10, [1; 2]); (-1, 10, [-1]); (2, 20, [2])]%Z) = ex_lst /\
+  (forall p, In p [(3, 10, [1; 2]); (-1, 10, [-1]); (2, 20, [2])]%Z -> p_branch p <> [] ->
+     val (ex_tv a0 a1) (ex_pn (p_branch p)) = bval (ex_s a0 a1) (p_branch p)) /\
+  cn_ok (ex_tv a0 a1) ex_cn ex_lst.
+Proof.
+  intros a0 a1.
+  assert (Ht : topo ex_g) by (apply topob_sound; reflexivity).
+  split; [apply topo_acyclic; exact Ht|].
+  split; [apply dag_val_supported; exact Ht|].
+  split; [reflexivity|]. split; [reflexivity|]. split.
+  - intros p [<-|[<-|[<-|[]]]] _; destruct a0, a1; reflexivity.
+  - intros e He.
+    assert (F : forallb (fun e => Bool.eqb (val (ex_tv a0 a1) (ex_cn (snd e))) (holds (ex_tv a0 a1) (snd e)))
+                        (select_sublist ex_lst) = true) by (destruct a0, a1; vm_compute; reflexivity).
+    rewrite forallb_forall in F. apply eqb_prop. exact (F e He).
+Qed.
+
+(* ... and what the model then reports: 8 lists, exactly one true per assignment *)
+Example C19_findall_example_result : forall a0 a1 : bool,
+  option_map (fun out => (length out, map fst (filter (fun e => val (ex_tv a0 a1) (snd e)) out)))
+             (findall_model ex_g (default_fuel ex_g) ex_pn ex_cn ex_results)
+  = Some (8, [(if negb a0 then [10%Z] else []) ++ (if a1 then [20%Z] else []) ++ (if a0 && a1 then [10%Z] else [])]).
+Proof. intros [|] [|]; vm_compute; reflexivity. Qed.
